@@ -1,5 +1,4 @@
-import CantoVerif.Spec.Csr
-import CantoVerif.Proofs.CsrPost
+import CantoVerif.Proofs.CsrReg
 /-!
 # C16 — CSR registry: each contract belongs to at most one NFT, set only by the Turnstile.
 
@@ -27,34 +26,6 @@ namespace Csr
 open Spec
 
 /-! ## the invariant, one operation and all histories -/
-
-theorem RegInv.of_sameReg {a b : State} (hc : b.csrs = a.csrs) (hi : b.idx = a.idx) (h : RegInv a) : RegInv b := by
-  refine ⟨?_, ?_, ?_⟩
-  · intro c n hcn
-    have : a.nftOf c = some n := by simpa only [State.nftOf, hi] using hcn
-    obtain ⟨r, hr, hm⟩ := h.sound c n this
-    exact ⟨r, by simpa only [State.getCSR, hc] using hr, hm⟩
-  · intro n r hr c hm
-    have : a.getCSR n = some r := by simpa only [State.getCSR, hc] using hr
-    have := h.complete n r this c hm
-    simpa only [State.nftOf, hi] using this
-  · intro n r hr
-    have : a.getCSR n = some r := by simpa only [State.getCSR, hc] using hr
-    exact h.wf n r this
-
-/-- the registered-target leg writes the record back with new counters and nothing else of the registry -/
-theorem split_reg {env : Env} {s s' : State} {ts : Addr} {nft : Nat} {r : CSR} {fee share : Nat}
-    (h : split env s ts nft r fee share = .ok s') :
-    ∃ s4 : State, s4.csrs = s.csrs ∧ s4.idx = s.idx ∧
-      s' = s4.setCSR { r with txs := (r.txs + 1) % U64, revenue := r.revenue + fee * share / S18 } := by
-  obtain ⟨s3, b4, h3, _, _, hs'⟩ := (split_ok h).ex
-  refine ⟨{ s3 with bank := b4 }, ?_, ?_, hs'⟩
-  · rcases h3 with ⟨_, rfl⟩ | ⟨_, hd⟩
-    · rfl
-    · obtain ⟨_, _, b, _, rfl⟩ := distributeFees_ok hd; rfl
-  · rcases h3 with ⟨_, rfl⟩ | ⟨_, hd⟩
-    · rfl
-    · obtain ⟨_, _, b, _, rfl⟩ := distributeFees_ok hd; rfl
 
 /-- the state the fee path starts from: the receipt's events processed (when CSR is enabled and a Turnstile is stored) -/
 def afterEvents (env : Env) (s : State) (logs : List Log) : State :=
@@ -183,13 +154,6 @@ theorem at_most_one_nft {env : Env} {s : State} (ops : List Op) (hI : RegInv s) 
 
 /-! ## only the Turnstile's logs count -/
 
-theorem handleLog_foreign (env : Env) (ts : Addr) (s : State) (l : Log) (h : l.emitter ≠ ts) :
-    handleLog env ts s l = (s, true) := by
-  unfold handleLog
-  split
-  · rfl
-  · simp [h]
-
 /-- **`only_turnstile_logs`.** The state after `processEvents` equals the state after processing the sub-list of
 logs whose emitter is the stored Turnstile address: logs from other emitters, in any position, with the right
 topic and a well-formed payload, are no-ops and do not even stop the loop. -/
@@ -234,15 +198,6 @@ theorem malformed_noop (env : Env) (ts : Addr) (s : State) (l : Log) (h : l.payl
   | register c tid hem htop hpay => rw [h] at hpay; cases hpay
   | assign c tid r hem htop hpay => rw [h] at hpay; cases hpay
 
-theorem handleLog_inert (env : Env) (ts : Addr) (s : State) (l : Log) (h : isRegistryLog ts l = false) :
-    (handleLog env ts s l).1 = s := by
-  have hc := handleLog_cases env ts s l
-  generalize handleLog env ts s l = res at hc ⊢
-  cases hc with
-  | skip k => rfl
-  | register c tid hem htop hpay => simp [isRegistryLog, hem, htop, hpay] at h
-  | assign c tid r hem htop hpay => simp [isRegistryLog, hem, htop, hpay] at h
-
 /-- **`inert_receipt_noop`.** A receipt none of whose logs is a Register / Assign log *of the Turnstile* with a
 well-formed payload — logs of other emitters, malformed payloads, other or unknown topics, no topics — leaves
 the whole state as it was. -/
@@ -276,78 +231,6 @@ theorem assign_needs_code {env : Env} {s s' : State} {c : Addr} {hasCode : Bool}
   obtain ⟨c', tid', r, hp, _⟩ := updateEvent_ok h
   injection hp with _ h2 _
 
-/-- one iteration: an index entry present afterwards was present before or is accounted for by this very log —
-emitted by the Turnstile, Register or Assign, well-formed, naming a code-bearing contract and this NFT id;
-and no entry is lost or changed -/
-theorem handleLog_idx {env : Env} {ts : Addr} {s : State} (l : Log) (hI : RegInv s) (c : Addr) (n : Nat) :
-    ((handleLog env ts s l).1.nftOf c = some n → s.nftOf c = some n ∨ explains ts c n l = true) ∧
-    (s.nftOf c = some n → (handleLog env ts s l).1.nftOf c = some n) := by
-  have hc := handleLog_cases env ts s l
-  generalize handleLog env ts s l = res at hc ⊢
-  cases hc with
-  | skip k => exact ⟨Or.inl, id⟩
-  | register c0 tid hem htop hpay hfree hid =>
-    constructor
-    · intro h
-      rw [nftOf_setCSR] at h
-      by_cases hm : c ∈ [c0]
-      · simp only [hm, if_true] at h
-        injection h with h
-        simp only [List.mem_singleton] at hm
-        right
-        simp [explains, hem, htop, hpay, hm, h]
-      · simp only [hm, if_false] at h; exact Or.inl h
-    · intro h
-      rw [nftOf_setCSR]
-      have hm : c ∉ [c0] := by
-        simp only [List.mem_singleton]; intro e; subst e; rw [hfree] at h; cases h
-      simp [hm, h]
-  | assign c0 tid r hem htop hpay hfree hid =>
-    obtain ⟨hrid, _⟩ := hI.wf _ r hid
-    constructor
-    · intro h
-      rw [nftOf_setCSR] at h
-      by_cases hm : c ∈ r.contracts ++ [c0]
-      · simp only [hm, if_true] at h
-        injection h with h
-        rw [List.mem_append] at hm
-        rcases hm with hm | hm
-        · left
-          rw [← h]
-          show s.nftOf c = some r.id
-          rw [hrid]; exact hI.complete _ r hid c hm
-        · simp only [List.mem_singleton] at hm
-          right
-          have : tid % U64 = n := by rw [← h]; exact hrid.symm
-          simp [explains, hem, htop, hpay, hm, this]
-      · simp only [hm, if_false] at h; exact Or.inl h
-    · intro h
-      rw [nftOf_setCSR]
-      by_cases hm : c ∈ r.contracts ++ [c0]
-      · simp only [hm, if_true]
-        rw [List.mem_append] at hm
-        rcases hm with hm | hm
-        · have := hI.complete _ r hid c hm
-          rw [this] at h; injection h with h
-          show some r.id = some n
-          rw [hrid, h]
-        · simp only [List.mem_singleton] at hm; subst hm; rw [hfree] at h; cases h
-      · simp [hm, h]
-
-theorem processEvents_induct_mem {P : State → Prop} (env : Env) (ts : Addr) : ∀ (logs : List Log)
-    (_ : ∀ s l, l ∈ logs → P s → P (handleLog env ts s l).1) (s : State), P s → P (processEvents env ts s logs) := by
-  intro logs
-  induction logs with
-  | nil => intro _ s h; exact h
-  | cons l ls ih =>
-    intro hstep s h
-    have h1 := hstep s l (List.mem_cons_self ..) h
-    have ih' := ih (fun s l' hl' => hstep s l' (List.mem_cons_of_mem _ hl'))
-    unfold processEvents
-    split
-    · rename_i s' heq; rw [heq] at h1; exact ih' s' h1
-    · rename_i s' heq; rw [heq] at h1; exact h1
-
 /-- **`changes_explained`.** Whatever the receipt: every index entry `c ↦ n` present after `processEvents` was
 present before, or the receipt contains a log emitted by the stored Turnstile address, with the Register or
 Assign topic, a payload the decoder accepts, naming `c` — an address holding contract code — and an id whose
@@ -371,37 +254,6 @@ theorem changes_explained {env : Env} {ts : Addr} {s : State} (logs : List Log) 
   exact key.2
 
 /-! ## no re-creation -/
-
-/-- record `r'` is record `r` with, at most, more contracts appended -/
-def Extends (r r' : CSR) : Prop :=
-  r'.id = r.id ∧ r.contracts <+: r'.contracts ∧ r'.txs = r.txs ∧ r'.revenue = r.revenue
-
-theorem Extends.refl (r : CSR) : Extends r r := ⟨rfl, List.prefix_refl _, rfl, rfl⟩
-theorem Extends.trans {a b c : CSR} (h1 : Extends a b) (h2 : Extends b c) : Extends a c :=
-  ⟨h2.1.trans h1.1, h1.2.1.trans h2.2.1, h2.2.2.1.trans h1.2.2.1, h2.2.2.2.trans h1.2.2.2⟩
-
-theorem handleLog_keeps {env : Env} {ts : Addr} {s : State} (l : Log) (hI : RegInv s) {n : Nat} {r : CSR}
-    (hr : s.getCSR n = some r) : ∃ r', (handleLog env ts s l).1.getCSR n = some r' ∧ Extends r r' := by
-  have hc := handleLog_cases env ts s l
-  generalize handleLog env ts s l = res at hc ⊢
-  cases hc with
-  | skip k => exact ⟨r, hr, Extends.refl r⟩
-  | register c0 tid hem htop hpay hfree hid =>
-    refine ⟨r, ?_, Extends.refl r⟩
-    rw [getCSR_setCSR]
-    have : n ≠ tid % U64 := by intro e; subst e; rw [hid] at hr; cases hr
-    simp [this, hr]
-  | assign c0 tid r0 hem htop hpay hfree hid =>
-    obtain ⟨hrid, _⟩ := hI.wf _ r0 hid
-    by_cases hn : n = tid % U64
-    · subst hn
-      rw [hid] at hr; injection hr with hr; subst hr
-      refine ⟨{ r0 with contracts := r0.contracts ++ [c0] }, ?_, rfl, List.prefix_append _ _, rfl, rfl⟩
-      rw [getCSR_setCSR]; simp [hrid]
-    · refine ⟨r, ?_, Extends.refl r⟩
-      rw [getCSR_setCSR]
-      have : n ≠ r0.id := by rw [hrid]; exact hn
-      simp [this, hr]
 
 /-- **`no_recreate`.** An NFT id that exists is never re-created or overwritten by the events of a receipt:
 after `processEvents` the same id holds a record with the same id and counters whose contract list extends the old
